@@ -1308,6 +1308,13 @@ impl QueryRouter {
         self.active_shard = shard;
     }
 
+    /// Should client statements be parsed at all? Yes when the parser decides the routing,
+    /// and also when plugins are configured: an explicit role choice (SET SERVER ROLE) turns
+    /// the parser-based routing off for the session, not the plugins.
+    pub fn should_parse(&self) -> bool {
+        self.query_parser_enabled() || self.pool_settings.plugins.is_some()
+    }
+
     /// Should we attempt to parse queries?
     pub fn query_parser_enabled(&self) -> bool {
         match self.query_parser_enabled {
